@@ -1,7 +1,7 @@
 """C20 - wrap_columns lays text out in aligned columns, column-major, never failing."""
 from ..sym import sym_of
 from ..engine import AnchorMissing, loop_models
-from ..poly import poly, fact_nf, cmp_nf
+from ..poly import poly, fact_nf, cmp_nf, GT0, GE0, EQ0, NE0
 from ..paths import loop_system, PathView, loop_paths
 from ..describe import describe
 from ..engines.ledger import enumerate_obligations, discharge, cut_describe
@@ -149,7 +149,7 @@ def _index(prog, rep, m, cw):
     D = lambda t: describe(t, body)[:160]
     WL = m.wrap_call
     L = ("call", "Vec::len", (WL,))
-    lpc_want = poly(("bin", "Div", L, m.columns)) + poly(("call", "From::from", (("bin", "Gt", ("bin", "Rem", L, m.columns), ("int", 0)),)))
+    lpc_want = poly(("bin", "Div", L, m.columns)) + poly(prog.simp(("call", "From::from", (("bin", "Gt", ("bin", "Rem", L, m.columns), ("int", 0)),)), body))
     kind, st, en = range_parts(m.outer.source) if m.outer.source[0] == "adt" else (None, None, None)
     r.check(kind == "range" and st == ("int", 0) and poly(en) == lpc_want, "rows",
             "rows range over 0..(L/columns + (L % columns > 0))", D(m.outer.source),
@@ -203,7 +203,7 @@ def _row(prog, rep, m, cw, iw, getcall):
         nfs = [fact_nf(f) for f in tr.facts if f[0][0] == "cmp"]
         lastc = cmp_nf("Eq", col_no, ("bin", "Sub", m.columns, ("int", 1)))
         is_last = lastc in nfs
-        is_notlast = ("ne0", lastc[1]) in nfs
+        is_notlast = NE0(lastc[1]) in nfs
         if is_some:
             seen["some"] += 1
             okc = len(vals) >= 2 and vals[0] == cell
